@@ -319,6 +319,54 @@ theorem b32_roundtrip : ∀ (data : Bytes), b32Decode (b32Encode data) = some da
 /-- the secret a parsed URI reports (`get_secret`) decodes back to the key bytes it holds -/
 theorem C19_secret_roundtrip (t : Totp) : b32Decode (getSecret t) = some t.secret := b32_roundtrip t.secret
 
+/-! ### writing a URI and reading it back -/
+
+/-- on a non-empty all-digit string `parseUInt` is the decimal value, bounded -/
+theorem parseUInt_digits (bound : Nat) (s : Str) (hne : s ≠ []) (hd : s.all Char.isDigit = true) :
+    parseUInt bound s = if numVal s < bound then some (numVal s) else none := by
+  match s, hne, hd with
+  | c :: r, _, hd =>
+    have hplus : Char.isDigit '+' = false := by decide
+    have hc : c ≠ '+' := by
+      intro e; subst e; simp [List.all_cons, hplus] at hd
+    unfold parseUInt
+    split
+    · rename_i r' heq
+      injection heq with h1 _; exact absurd h1 hc
+    · simp [hd, numVal]
+
+theorem parseUInt_decimal (bound w n : Nat) (hw : 1 ≤ w) (hn : n < 10 ^ w) (hb : n < bound) :
+    parseUInt bound (decimal w n) = some n := by
+  have hne : decimal w n ≠ [] := by
+    intro e; have := decimal_length w n; rw [e] at this; simp at this; omega
+  rw [parseUInt_digits bound _ hne (decimal_all_digits w n), numVal_decimal, Nat.mod_eq_of_lt hn]
+  simp [hb]
+
+def algName : Alg → Str
+  | .sha1 => ['S','H','A','1'] | .sha256 => ['S','H','A','2','5','6'] | .sha512 => ['S','H','A','5','1','2']
+
+theorem parseAlg_algName (a : Alg) : parseAlg (algName a) = some a := by cases a <;> decide
+
+/-- **a URI written from parameters parses to exactly those parameters**: every secret (RFC 4648 base32 with
+    padding), every issuer, every period 1 ≤ p < 2^64 and digit count d < 2^32 written in decimal with any
+    number of leading zeros, every algorithm name -/
+theorem C19_uri_roundtrip (path iss : Str) (sec : Bytes) (p d wp wd : Nat) (alg : Alg)
+    (hwp : 1 ≤ wp) (hwd : 1 ≤ wd) (hp1 : 1 ≤ p) (hp : p < 10 ^ wp) (hp64 : p < 2 ^ 64)
+    (hd : d < 10 ^ wd) (hd32 : d < 2 ^ 32) :
+    fromParts kOtpauth path
+      [(kSecret, b32Encode sec), (kIssuer, iss), (kPeriod, decimal wp p), (kDigits, decimal wd d),
+       (kAlgorithm, algName alg)]
+    = .ok ⟨path.dropWhile (· = '/'), some iss, p, d, alg, sec⟩ := by
+  have e1 := parseUInt_decimal (2 ^ 64) wp p hwp hp hp64
+  have e2 := parseUInt_decimal (2 ^ 32) wd d hwd hd hd32
+  have e3 := parseAlg_algName alg
+  have e4 := b32_roundtrip sec
+  have hp0 : p ≠ 0 := by omega
+  simp [fromParts, foldPairs, stepPair, e1, e2, e3, e4, hp0, kOtpauth, kSecret, kIssuer, kPeriod, kDigits,
+    kAlgorithm]
+
+example : decimal 3 30 = ['0', '3', '0'] ∧ parseUInt (2 ^ 64) (decimal 3 30) = some 30 := by decide
+
 /-! Non-vacuity -/
 example : fromParts kOtpauth ['/', 'K', ':', 'n']
     [(kSecret, ['J','B','S','W','Y','3','D','P','E','H','P','K','3','P','X','P']), (kPeriod, ['3','0']),
